@@ -1001,7 +1001,7 @@ class C13(SimSpec):
         "then `jade resubmit-jobs` with a random flag combination (--failed/--no-failed, --missing/--no-missing, --successful/--no-successful), run to completion, in a share of runs "
         "followed by a second resubmission; a share runs the command on an incomplete submission instead (idle, or while another process holds the submitter role, from the same or "
         "another host) and a share injects a kill / EDQUOT into resubmit-jobs itself and then tries the documented commands; oracle: started set == closure of the selection (minus "
-        "canceled), each once, dependency order with the new outcomes, other results identical, one entry per job afterwards; refusal is harmless; non-trivial = resubmission with a "
+        "canceled), each once, dependency order with the new outcomes, other results identical, one entry per job afterwards; refusal is harmless; a share first passes `-s` a groups file that does not fit the submission (the command must fail, erase nothing, keep no role; the real command follows); non-trivial = resubmission with a "
         "non-empty closure strictly larger than the direct selection, or a refusal while another process held the role (a small slice with an error injected into the command is informational only)"
     )
     task_timeout = 200
@@ -1042,6 +1042,10 @@ class C13(SimSpec):
         if kind in (1, 6) and rs["rounds"] and rng.random() < 0.6:
             # resubmit-jobs -s <edited copy of submitter_groups.json>: new limits and HPC parameters for the same groups
             rs["rounds"][0]["groups"] = scenario.changed_groups(rng, scen["groups"])
+        if kind in (0, 6) and rs["rounds"] and i % 3 == 0:
+            # before the real command the user passes a groups file that does not fit the submission: a failure of the command
+            # by its input, which must erase nothing and leave the way to the real command open
+            rs["rounds"][0]["bad_groups"] = rng.choice(["length", "name"])
         scen["resubmit"] = rs
         scen["resub_kind"] = ["plain", "plain", "with_missing", "refuse_busy", "refuse_idle", "fault_in_command", "repeated", "scheduler_outage"][kind]
         scen["obs_inside"] = kind in (0, 1)
@@ -1067,6 +1071,7 @@ class C13(SimSpec):
         c["resubmissions_checked"] = total(ok, "resubmissions_checked")
         c["refusals_checked"] = total(ok, "refusals_checked")
         c["faults_in_resubmit_command_checked"] = total(ok, "resub_fault_checked")
+        c["commands_failing_on_a_malformed_groups_file_checked"] = total(ok, "bad_groups_checked")
         c["scenario_kinds"] = hist(t["args"]["scen"]["resub_kind"] for t in tasks)
         c["with_reports"] = sum(1 for t in tasks if t["args"]["scen"]["reports"])
         c["closure_larger_than_selection"] = sum(1 for r in ok for (s_, cl, l) in (r.get("resub_sizes") or []) if cl > s_)
